@@ -87,7 +87,7 @@ ENTRIES = ["vario_estimate", "vario_latlon", "vario_axis", "standard_bins", "kri
 
 def generate(tier, seed):
     rng = np.random.default_rng([seed, 20])
-    n = {"quick": 25, "thorough": 250}[tier]
+    n = {"quick": 25, "thorough": 2000}[tier]
     cases = []
     for rep in range(n):
         for e in ENTRIES:
